@@ -202,6 +202,18 @@ pub fn run(args: &Args) {
         let s: Vec<usize> = cases::structured(struct_max).into_iter().filter(|n| *n > dense_max).collect();
         let mut rng = Rng::new(mix(&[args.seed, 0xF9]));
         list.extend(cases::subsample(&s, struct_count, &mut rng));
+        // always: 2^k, 3*2^k, 9*2^k, 5*2^k, 7*2^k (deep radix chains of the portable planner)
+        let mut p2 = 1usize;
+        while p2 <= struct_max {
+            for m in [1usize, 3, 5, 7, 9] {
+                if p2 * m > dense_max && p2 * m <= struct_max {
+                    list.push(p2 * m);
+                }
+            }
+            p2 *= 2;
+        }
+        list.sort();
+        list.dedup();
     }
     if let Some(n) = args.get_usize("only-n") {
         list = vec![n];
